@@ -53,7 +53,7 @@ def add_thread_scenarios(res, family, tier, seed, jobs, what):
     bound = 1 if tier == "quick" else 2
     cfg = [dict(threads={"bound": bound, "mode": "loop-main"}, eager=False, salt=1)]
     cov, viol, harness = run_family(family, tier, cfg, jobs,
-                                    max_execs=500 if tier == "quick" else 50000, seed=seed)
+                                    max_execs=500 if tier == "quick" else 3000, seed=seed)
     for v in viol:
         v["signature"] = v["what"][0].split(":", 1)[-1][:100]
     res["coverage"]["worker_thread_scenarios"] = {
